@@ -5,6 +5,7 @@ import (
 	"runtime"
 	"strings"
 	"sync"
+	"sync/atomic"
 	"testing"
 	"testing/synctest"
 	"time"
@@ -27,8 +28,12 @@ func init() {
 		FindFirstChar: func(r *regexp2.Runner) bool { return true },
 		Execute: func(r *regexp2.Runner) error {
 			n := len(r.Runtext)
-			for i := 0; i < n*20; i++ {
-				time.Sleep(50 * time.Microsecond)
+			step, per := 50*time.Microsecond, 20
+			if n > 400 {
+				step, per = 250*time.Microsecond, 4 // long matches poll every 250 virtual microseconds
+			}
+			for i := 0; i < n*per; i++ {
+				time.Sleep(step)
 				if err := r.CheckTimeout(); err != nil {
 					return err
 				}
@@ -56,7 +61,7 @@ type Case struct {
 func TestMain(m *testing.M) {
 	h.Setup("C14",
 		"histories (3-10 steps) of timed long matches (work >> timeout), timed quick matches (work << timeout), idle gaps shorter and longer than timeout + clock slop, StopTimeoutClock calls, groups of 2-4 concurrent timed matches with different deadlines, and untimed matches, timeouts 10 ms - 2 s, clock period 1 ms, run inside a testing/synctest bubble (virtual time: the harness owns the clock) against the unmodified clock code; a registered engine polls CheckTimeout every 50 virtual microseconds; one evaluation = one history; oracle: a long match returns a timeout error at virtual elapsed in [d-2ms, d+4ms], a quick match returns at exactly its work time without error, the clock goroutine is gone 1 s + 5 ms after the last deadline and after StopTimeoutClock, and is restarted on demand; plus a small wall-clock leg with real catastrophic patterns through the real interpreter; non-trivial = a history with a timeout that follows an idle gap longer than the previous deadline + slop, or follows StopTimeoutClock, or overlaps another deadline; distinct = hash of the history",
-		map[string]float64{"timeout-after-long-idle": 0.15, "timeout-after-stop": 0.15, "concurrent": 0.3},
+		map[string]float64{"timeout-after-long-idle": 0.15, "timeout-after-stop": 0.15, "concurrent": 0.3, "race-on-stopped-clock": 0.2},
 		"virtual time replaces the interpreter by a stub that polls CheckTimeout; that the real interpreter polls often enough is only covered by the lenient wall-clock leg")
 	h.Main(m)
 }
@@ -68,12 +73,24 @@ func genCase(t *rapid.T) Case {
 		return rapid.SampledFrom([]int{10, 15, 25, 40, 80, 150, 400, 1000, 2000}).Draw(t, "d")
 	}
 	for i := 0; i < n; i++ {
-		switch rapid.IntRange(0, 12).Draw(t, "kind") {
+		switch rapid.IntRange(0, 14).Draw(t, "kind") {
 		case 10, 11:
 			// the scenario the stale-clock refresh exists for: idle beyond the clock's life, then a timed match
 			dd := d()
 			c.Steps = append(c.Steps, Step{Kind: "idle", Gap: rapid.SampledFrom([]int{1100, 1500, 2500, 5000, 30000}).Draw(t, "longgap")},
 				Step{Kind: "long", D: dd, W: dd + rapid.IntRange(20, 200).Draw(t, "extra")})
+		case 13, 14:
+			// two or more timed matches released together on a stopped clock, deadlines more than the clock's 1 s slop apart
+			st := Step{Kind: "race"}
+			long := rapid.SampledFrom([]int{1200, 1500, 2000}).Draw(t, "racelong")
+			st.Ds = append(st.Ds, long)
+			st.Ws = append(st.Ws, long+60)
+			k := rapid.IntRange(1, 3).Draw(t, "raceshort")
+			for j := 0; j < k; j++ {
+				st.Ds = append(st.Ds, rapid.SampledFrom([]int{10, 15, 25}).Draw(t, "raced"))
+				st.Ws = append(st.Ws, 0)
+			}
+			c.Steps = append(c.Steps, st)
 		case 12:
 			dd := d()
 			c.Steps = append(c.Steps, Step{Kind: "stop"}, Step{Kind: "long", D: dd, W: dd + rapid.IntRange(20, 200).Draw(t, "extra")})
@@ -207,10 +224,17 @@ func runHistory(t *testing.T, c Case) (viol string, labels []string) {
 					fail("clock goroutine still running after StopTimeoutClock")
 				}
 				stopped = true
-			case "concurrent":
+			case "concurrent", "race":
 				labels = append(labels, "concurrent")
+				if st.Kind == "race" {
+					regexp2.StopTimeoutClock()
+					synctest.Wait()
+					labels = append(labels, "race-on-stopped-clock")
+				}
 				var wg sync.WaitGroup
 				res := make([]string, len(st.Ds))
+				var gate atomic.Bool
+				var ready atomic.Int32
 				for j := range st.Ds {
 					note(st.Ds[j])
 				}
@@ -218,9 +242,17 @@ func runHistory(t *testing.T, c Case) (viol string, labels []string) {
 					wg.Add(1)
 					go func(j int) {
 						defer wg.Done()
+						// spin barrier: release all goroutines within nanoseconds of each other
+						ready.Add(1)
+						for !gate.Load() {
+						}
 						res[j] = timed(st.Ds[j], st.Ws[j])
 					}(j)
 				}
+				for int(ready.Load()) < len(st.Ds) {
+					runtime.Gosched()
+				}
+				gate.Store(true)
 				wg.Wait()
 				for j, r := range res {
 					if r != "" {
